@@ -50,7 +50,8 @@ HasEpbUse(e, c) == \E i \in 1..Len(e.comps) : CarrierOf(e.comps[i]) = c /\ IsEpb
 NeedKeys == {"needs.ACS", "needs.CAL", "needs.REF"}
 BalKeys(e) == SeqSet(e.out.balkeys)
 M2Keys(e) == SeqSet(e.out.m2keys)
-B(e, k) == V(e, P2("bal", k))
+\* (a path that is missing is reported by SchemaClauses; here it counts as 0 so that the other clauses can still be evaluated)
+B(e, k) == IF HasP(e, P2("bal", k)) THEN V(e, P2("bal", k)) ELSE 0
 M(e, k) == V(e, P2("m2", k))
 SumOver(e, PS) == ISumSet(LAMBDA pp : V(e, pp), PS)
 NC(e) == Cardinality(Crs(e)) + 1
